@@ -497,7 +497,9 @@ def validation (env : Env) (impl : FmtImpl) (fuel : Nat) (c : ClsView) (types : 
   let env' := match fc with | some es => fmtEnv env es | none => env
   let cfg := cfgOf c types fc
   let base : Str := match schema with
-    | .obj kvs => match Json.lookup c.idKey kvs with | some (.str s) => s | _ => []
+    | .obj kvs =>
+      if Json.hasKey (skey "$ref") kvs then [] else
+      match Json.lookup c.idKey kvs with | some (.str s) => s | _ => []
     | _ => []
   match mkResolver env metas base schema [] true (some 1024) with
   | .ok st => .ok (eval env' impl cfg fuel inst schema budget st)
